@@ -24,8 +24,9 @@ VERIF = Path(__file__).resolve().parent.parent
 REPO = Path(os.environ.get("VERIF_REPO", "/repo"))
 SPEC = VERIF / "spec"
 HARNESS = VERIF / "harness"
-EVIDENCE = VERIF / "evidence"
-REPLAYS = VERIF / "replays"
+# mutation self-tests point these elsewhere so that the committed evidence is never overwritten
+EVIDENCE = Path(os.environ.get("VERIF_EVIDENCE", str(VERIF / "evidence")))
+REPLAYS = Path(os.environ.get("VERIF_REPLAYS", str(VERIF / "replays")))
 KNOWN = VERIF / "known_findings.jsonl"
 GUARD = "CODE_DATA_VERIF"
 
